@@ -1,3 +1,5 @@
+import json, os
+
 SPEC = {
     "id": "C13",
     "n": {"quick": 600, "thorough": 20000},
@@ -5,10 +7,49 @@ SPEC = {
                    "4": "MakeTester / Test verdicts", "5": "FilterToProto (after Marshal/Unmarshal)",
                    "6": "FilterFromProto result", "7": "harness re-encoding = model's repr (what MySQL hands back)",
                    "8": "extractRow / tester on the row's own values"},
-    "corr_name": "Sql.Codec (valuer, scanner, unbuild, build, parse_binlog_row, tester, filter_to_proto, filter_from_proto) vs internal/fields, sqlgen/reflect.go, livesql/marshal.go, livesql/binlog.go",
+    "corr_name": "Sql.Codec (valuer, scanner, unbuild, build, parse_binlog_row, tester, filter_to_proto, filter_from_proto) vs internal/fields/sql.go, sqlgen/reflect.go, livesql/marshal.go, livesql/binlog.go",
     "coq_modules": ["Sql.Codec"],
-    "trusted_base": [],
-    "assumptions": [],
-    "manifest": {"text": "", "note": "", "technique": ""},
+    "trusted_base": [
+        "Coq 8.16.1 kernel and vm_compute (no native_compute); Print Assumptions: closed under the global context",
+        "hand-written model coq/theories/Sql/Codec.v of internal/fields/sql.go (Valuer.Value, Scanner.Scan), sqlgen/reflect.go (unbuildStruct, BuildStruct, tester, extractRow, driverValuesEqual), livesql/binlog.go (parseBinlogRow), livesql/marshal.go, and of the parts of database/sql (convertAssign, asString, driver.Bool) and go-sql-driver/mysql (NullTime.Scan) they call; tied to the code by the correspondence check only",
+        "floats and times are opaque names; strconv.FormatFloat/ParseFloat, float32 rounding, time formatting and mysql.parseDateTime enter the model as an environment whose laws (parse after format is the identity) are hypotheses of the theorems and whose values in the correspondence run are computed by Go",
+        "the harness's stand-in for MySQL (harness/cmd/c13 repr: which Go value the text protocol, the prepared-statement protocol and the go-mysql binlog decoder hand back for a stored driver value and column type); gogo/protobuf marshalling of thunderpb.SQLFilter is exercised, not modelled",
+        "Go harness harness/cmd/c13 (generator, oracle, Coq term printer) and the add-only verif-tagged wrappers sqlgen/verif_codec.go, livesql/verif_codec.go",
+    ],
+    "assumptions": [
+        "excluded value classes (counted in the histogram): NaN, -0 and infinities; uint64 above 2^63-1 (Valuer wraps it to a negative int64, which an unsigned column cannot hold); time.Time values that are not UTC, carry a monotonic reading, or have a precision the column / the binlog decoder drops; FLOAT columns read through the text protocol (MySQL prints 6 significant digits); MEDIUMINT UNSIGNED; binary-tagged fields in VARBINARY columns (the binlog decoder returns a string, which the binary branch of Scanner.Scan rejects: reading only)",
+        "filters in the protobuf theorem are typed: each value has the column's Go base type (pointer or not), and is not a pointer to a zero value on an implicitnull column (open known finding)",
+        "custom column types are the three of the harness catalogue (Valuer/Scanner, Marshal/Unmarshal, TextMarshaler) with prefix codecs; json-tagged columns are integers and booleans",
+    ],
+    "manifest": {
+        "text": "Coq theorems (Props/C13.v) over an executable model of Valuer/Scanner, UnbuildStruct/BuildStruct/parseBinlogRow, the row tester and the filter protobuf codec: decode(repr(encode x)) = x for every column kind, pointer/NULL/tag combination and every representation MySQL or the binlog decoder hands back; tester reflexivity; protobuf round trip = error or same verdict on every row. The model is run against the Go code on generated struct values, re-encodings and filters on every run (correspondence), and the three statements are evaluated directly on the implementation's outputs (oracle).",
+        "note": "Trusted: Coq kernel + vm_compute; the hand-written model (tied to the code only by the correspondence check); the harness's stand-in for what MySQL / go-mysql hand back; strconv/time/protobuf behaviour enters as an environment with round-trip laws as hypotheses. Excluded classes: NaN/-0/inf, uint64 > 2^63-1, non-UTC or sub-precision times, FLOAT via text protocol. One open known finding (pointer to zero on an implicitnull column through the protobuf).",
+        "technique": "Coq proof over executable model + differential correspondence check (vm_compute) + property oracle on implementation outputs",
+    },
     "harness_timeout": {"quick": 300, "thorough": 3000},
 }
+
+
+def run(tier, seed, replay=None):
+    """Generic flow; known findings proposed in patches/C13-known.jsonl count as well until they are merged
+    into KNOWN_FINDINGS.jsonl (duplicates are harmless)."""
+    from vlib import runner, common as C
+    base = C.known_findings
+
+    def with_proposed():
+        res = base()
+        have = {(k.get("property"), k.get("signature")) for k in res}
+        p = os.path.join(C.VERIF, "patches", "C13-known.jsonl")
+        if os.path.exists(p):
+            for l in open(p):
+                l = l.strip()
+                if l:
+                    k = json.loads(l)
+                    if (k.get("property"), k.get("signature")) not in have:
+                        res.append(k)
+        return res
+    C.known_findings = with_proposed
+    try:
+        return runner.run(SPEC, tier, seed, replay)
+    finally:
+        C.known_findings = base
